@@ -106,13 +106,16 @@ def pContractMsg : P (Addr × ContractMsg) := fun ts => do
     let (ty, ts) ← pTok ts
     let (amp, ts) ← pNat ts
     let (n, ts) ← pNat ts
+    -- a decimals token `x` means "no entry" (the decimals list is shorter than the denoms), `+<k>` two entries
     let (dd, ts) ← pRepeat (fun ts => do
       let (d, ts) ← pTok ts
-      let (k, ts) ← pNat ts
-      pure ((d, k), ts)) n ts
+      let (kt, ts) ← pTok ts
+      let ks : List Nat ← if kt == "x" then pure [] else
+        if kt.startsWith "+" then (do let v ← (kt.drop 1).toNat?; pure [v, v]) else (do let v ← kt.toNat?; pure [v])
+      pure ((d, ks), ts)) n ts
     let (fees, ts) ← pFees ts
     let (id, ts) ← pOptTok ts
-    pure ((c, .pm (.createPool (dd.map (·.1)) (dd.map (·.2)) fees (if ty == "cp" then .cp else .stable amp) id)), ts)
+    pure ((c, .pm (.createPool (dd.map (·.1)) (dd.flatMap (·.2)) fees (if ty == "cp" then .cp else .stable amp) id)), ts)
   | "pm", "provide" => do
     let (pool, ts) ← pTok ts
     let (ls, ts) ← pOptNat ts
